@@ -16,6 +16,17 @@ import sys, os, re, json, time, random, subprocess, importlib.util, hashlib, shu
 ROOT = '/verif'
 COQ = ROOT + '/coq'
 BUILD = ROOT + '/build'
+# The registered checks always run against /repo.  VERIF_REPO=<dir> (used only for the
+# coordinator's own mutation experiments on a scratch worktree, so that /repo is never
+# touched while other work builds against it) redirects the harness build and every
+# translator to that tree; evidence and replays then go to build/alt/ instead.
+REPO = os.environ.get('VERIF_REPO', '/repo').rstrip('/')
+ALT = REPO != '/repo'
+if ALT:
+    # private copies: the Coq tree (translators rewrite generated .v files), scratch dirs
+    SRC_COQ = COQ
+    COQ = BUILD + '/alt/coq'
+    BUILD_ALT = BUILD + '/alt'
 GUARD = 'arkworks_rs_algebra_verif'
 NCPU = 16
 
@@ -125,7 +136,7 @@ def theorem_names(vfile):
 
 def print_assumptions(pid, thms, timeout=600):
     """returns dict thm -> list of axiom names ([] = closed)"""
-    d = BUILD + '/assum'
+    d = (BUILD_ALT if ALT else BUILD) + '/assum'
     os.makedirs(d, exist_ok=True)
     f = '%s/Assum_%s.v' % (d, pid)
     with open(f, 'w') as fh:
@@ -242,7 +253,7 @@ def kernel_xcheck(pid, runname, sample, timeout):
     """sample: list of (opcode, args, expected_out_lists). True/False, message"""
     if not sample:
         return True, 'empty', 0
-    d = BUILD + '/xcheck'
+    d = (BUILD_ALT if ALT else BUILD) + '/xcheck'
     os.makedirs(d, exist_ok=True)
     shards = min(NCPU, max(1, len(sample) // 25))
     files = []
@@ -306,7 +317,29 @@ def finding_matches(f, case):
     return True
 
 
+def harness_dir():
+    """directory to run cargo in, and the target dir it uses"""
+    if not ALT:
+        return ROOT + '/harness', BUILD + '/target'
+    d = BUILD + '/alt/harness'
+    os.makedirs(d, exist_ok=True)
+    toml = open(ROOT + '/harness/Cargo.toml').read().replace('"/repo/', '"%s/' % REPO)
+    if not os.path.exists(d + '/Cargo.toml') or open(d + '/Cargo.toml').read() != toml:
+        open(d + '/Cargo.toml', 'w').write(toml)
+    if not os.path.islink(d + '/src'):
+        os.symlink(ROOT + '/harness/src', d + '/src')
+    os.makedirs(d + '/.cargo', exist_ok=True)
+    open(d + '/.cargo/config.toml', 'w').write('[net]\noffline = true\n[build]\ntarget-dir = "%s/alt/target"\n' % BUILD)
+    shutil.copy(REPO + '/Cargo.lock', d + '/Cargo.lock') if not os.path.exists(d + '/Cargo.lock') else None
+    return d, BUILD + '/alt/target'
+
+
 def write_evidence(pid, ev):
+    if ALT:
+        os.makedirs(BUILD + '/alt/evidence', exist_ok=True)
+        with open('%s/alt/evidence/%s.json' % (BUILD, pid), 'w') as f:
+            json.dump(ev, f, indent=1, sort_keys=True)
+        return
     os.makedirs(ROOT + '/evidence', exist_ok=True)
     with open('%s/evidence/%s.json' % (ROOT, pid), 'w') as f:
         json.dump(ev, f, indent=1, sort_keys=True)
@@ -333,6 +366,11 @@ def main():
     if tier not in ('quick', 'thorough'):
         tier = 'quick'
     seed = int(os.environ.get('VERIF_SEED', '20260926'))
+    if ALT:
+        os.makedirs(COQ, exist_ok=True)
+        sh(['rsync', '-a', '--delete', SRC_COQ + '/', COQ + '/'])
+        os.makedirs(BUILD_ALT + '/build/ocaml', exist_ok=True)
+        sh(['rsync', '-a', BUILD + '/ocaml/', BUILD_ALT + '/build/ocaml/'])
     prop = load_prop(pid)
     ops = prop.OPS
     runname = getattr(prop, 'RUN_NAME', 'run_' + pid)
@@ -340,7 +378,8 @@ def main():
     os.makedirs(BUILD, exist_ok=True)
     notes, violations, known_hits = [], [], []
     lost = []          # obligations / correspondences that no longer check
-    ctx = {'pid': pid, 'tier': tier, 'seed': seed, 'notes': notes, 'sh': sh, 'BUILD': BUILD, 'COQ': COQ, 'ROOT': ROOT}
+    ctx = {'pid': pid, 'tier': tier, 'seed': seed, 'notes': notes, 'sh': sh, 'BUILD': BUILD, 'COQ': COQ, 'ROOT': ROOT,
+           'REPO': REPO, 'ALT': ALT, 'harness_dir': harness_dir}
 
     # 1. translators (source -> generated .v)
     if hasattr(prop, 'pre'):
@@ -359,9 +398,10 @@ def main():
         print('MACHINERY-ERROR: model of %s does not build' % pid)
         # the model itself is broken (it is hand written; only generated inputs can break it)
         lost.append('model build (%s)' % ext_t)
-    model_bin = '%s/bin/model_%s' % (BUILD, pid)
+    model_bin = '%s/bin/model_%s' % (BUILD_ALT if ALT else BUILD, pid)
+    menv = {'VERIF_OCAML_DIR': BUILD_ALT + '/build/ocaml', 'VERIF_BIN_DIR': BUILD_ALT + '/bin'} if ALT else None
     if not lost:
-        rc, out = sh([ROOT + '/lib/build_model.sh', pid], timeout=900)
+        rc, out = sh([ROOT + '/lib/build_model.sh', pid], timeout=900, env=menv)
         if rc != 0:
             log(out[-3000:])
             print('MACHINERY-ERROR: extracted model of %s does not compile' % pid)
@@ -401,12 +441,14 @@ def main():
         shutil.copy('/repo/Cargo.lock', ROOT + '/harness/Cargo.lock')
     feats = getattr(prop, 'HARNESS_FEATURES', '')
     cmd = 'cargo build --offline --bin %s %s' % (hbin, ('--features ' + feats) if feats else '')
-    rc, out = sh(cmd, cwd=ROOT + '/harness', timeout=3000, env={'RUSTFLAGS': '--cfg ' + GUARD})
+    hdir, tdir = harness_dir()
+    rc, out = sh(cmd, cwd=hdir, timeout=3000, env={'RUSTFLAGS': '--cfg ' + GUARD})
     harness_ok = rc == 0
     if not harness_ok:
         log(out[-4000:])
         lost.append('correspondence harness does not compile against the working tree (bin %s)' % hbin)
-    hbin_path = '%s/target/debug/%s' % (BUILD, hbin)
+    hbin_path = '%s/debug/%s' % (tdir, hbin)
+    ctx['hbin_path'] = hbin_path
 
     # 5. cases
     rng = random.Random(seed)
@@ -487,7 +529,8 @@ def main():
 
     # 8. decide
     findings = load_findings(pid)
-    os.makedirs(ROOT + '/replays', exist_ok=True)
+    RPL = (BUILD + '/alt/replays') if ALT else (ROOT + '/replays')
+    os.makedirs(RPL, exist_ok=True)
     new_viol = []
     for (k, why) in mismatches:
         if isinstance(k, dict):          # produced by extra(): already a full record
@@ -510,7 +553,7 @@ def main():
     if new_viol:
         # smallest case first: shortest line
         new_viol.sort(key=lambda r: len(r.get('line') or ''))
-        replay_path = '%s/replays/%s_seed%d.json' % (ROOT, pid, seed)
+        replay_path = '%s/%s_seed%d.json' % (RPL, pid, seed)
         with open(replay_path, 'w') as f:
             json.dump({'property': pid, 'seed': seed, 'tier': tier,
                        'cases': [r['case'] for r in new_viol[:20]],
@@ -519,7 +562,7 @@ def main():
         print('VIOLATION property=%s replay=%s' % (pid, replay_path))
         exit_code = 1
     elif lost:
-        replay_path = '%s/replays/%s_lost_seed%d.json' % (ROOT, pid, seed)
+        replay_path = '%s/%s_lost_seed%d.json' % (RPL, pid, seed)
         with open(replay_path, 'w') as f:
             json.dump({'property': pid, 'seed': seed, 'tier': tier, 'cases': [],
                        'no_longer_checks': lost,
